@@ -436,6 +436,14 @@ func (w *World) callbacks(h *StoreH, cmpOf func(name string) int) gkvlite.StoreC
 			w.yield("cb-valwrite")
 			v := i.Val
 			if len(v) == 0 {
+				if h.Chunk%2 == 1 {
+					// the plain loop form ("while bytes remain, write the
+					// next chunk"): an empty value issues no write at all
+					// (seeded change C17-r9-1)
+					w.probe("valwrite-callback-wrote-nothing-for-empty-value")
+					return nil
+				}
+				// what the built-in writer does: one zero-length WriteAt
 				_, err := wr.WriteAt(v, offset)
 				return err
 			}
